@@ -141,6 +141,12 @@ func unmarshalList(buf []byte, ety cty.Type, path cty.Path) (cty.Value, error) {
 		return cty.ListValEmpty(ety), nil
 	}
 
+	if !cty.CanListVal(vals) {
+		// Possible only if ety contains cty.DynamicPseudoType, so that the
+		// elements were free to choose different types.
+		return cty.NilVal, path.NewErrorf("all list elements must have the same type")
+	}
+
 	return cty.ListVal(vals), nil
 }
 
@@ -180,6 +186,10 @@ func unmarshalSet(buf []byte, ety cty.Type, path cty.Path) (cty.Value, error) {
 
 	if len(vals) == 0 {
 		return cty.SetValEmpty(ety), nil
+	}
+
+	if !cty.CanSetVal(vals) {
+		return cty.NilVal, path.NewErrorf("all set elements must have the same type")
 	}
 
 	return cty.SetVal(vals), nil
@@ -232,6 +242,10 @@ func unmarshalMap(buf []byte, ety cty.Type, path cty.Path) (cty.Value, error) {
 
 	if len(vals) == 0 {
 		return cty.MapValEmpty(ety), nil
+	}
+
+	if !cty.CanMapVal(vals) {
+		return cty.NilVal, path.NewErrorf("all map elements must have the same type")
 	}
 
 	return cty.MapVal(vals), nil
